@@ -181,3 +181,31 @@ extend("C19", "consistent-snapshot rule for the forwarding comparison, floating-
        "The three updates are written in a form whose IEEE-754 evaluation is monotone in the required direction.")
 extend("C20", "own-record / purge-stamps-record, disappearance-after-deactivation, table replaced-or-pruned",
        "A node never takes its own broadcast for received link-state data; every purge gives the record a newer stamp; a recomputation leaves no destination without a path in the table.")
+
+
+# ---- seeding round 5 and audit round 3 (DESIGN.md §16, §17)
+extend("C01", "payload-last guard shared with C02, loop-continue complement of the error discipline")
+extend("C02", "number-0-is-the-primary-block guard, millisecond/Duration range and sign rules",
+       "The uniqueness test of block numbers counts the primary block's 0; a lifetime beyond a Duration's range cannot make a valid bundle look expired.")
+extend("C03", "rejection-propagates (error discipline of the bundle/block decoders incl. loop-continue)",
+       "The rejection of a block reaches the caller of the bundle decoder: no decoder returns nil or goes on with the next block after a failed step.")
+extend("C04", "registered-channel removal (no orphaned feedback channel for the receive loop to block on)")
+extend("C05", "served-after-sent (known finding), millisecond/Duration range and sign rules, reservation key agreement and owner-only release",
+       "The per-bundle reservation is released under the key it was taken with and only by its owner; ages and lifetimes cannot wrap around.",
+       "Known finding (not repaired): a peer is recorded as served at selection time; a shutdown during the transmission loses it.")
+extend("C06", "millisecond/Duration range and sign rules (upper bound before the multiplication, non-negative before the unsigned conversion, clamp idiom)")
+extend("C09", "fragments-own-blocks (freshInLoop), copies-untouched (may-mutate closure over *Bundle methods)")
+extend("C10", "copies-untouched for ReassembleFragments")
+extend("C11", "Transfer ID from one atomic increment, registered-channel removal, no cyclic wait between the established stage and the transfer manager",
+       "Concurrent Sends get distinct Transfer IDs; the stage never blocks on the manager while only it can empty the manager's output channel.")
+extend("C12", "Connector.tid guarded by sendMutex, Send completion (known finding)",
+       "Concurrent BBC transmissions cannot share a transmission ID.",
+       "Known finding (not repaired): BBC Send returns success before the fragments are broadcast and never hears a later failure fragment.")
+extend("C13", "reservation released by its owner only, membership test by compare loop or by an index kept in step")
+extend("C15", "Deliver guarded by the agents' registrations (shared with C07)")
+extend("C16", "wait-under-lock (lockset x signaller's acquire set), report channel never closed",
+       "No function waits for a channel while holding a mutex its signaller may need; the channel the elements report into is never closed.")
+extend("C18", "budget entries outlive the bundle, refund only for peers the algorithm chose",
+       "A budget entry is deleted only for a bundle the store no longer knows; a failed direct delivery is not refunded.")
+extend("C19", "advertised vector replaced as a whole")
+extend("C20", "once-per-peer within one call of filterCLAs")
